@@ -285,3 +285,64 @@ def case(c, tags=()):
         yield
     finally:
         LOG.case, LOG.case_tags = old, oldt
+
+
+def monitored_cm(cls, name, prop, pre=None, post=None):
+    """contract on a classmethod: pre(cls, args, kwargs) / post(state, cls, args, kwargs, result, exc)"""
+    raw = cls.__dict__[name]
+    func = raw.__func__
+    key = prop + "." + cls.__name__ + "." + name
+
+    def wrapper(klass, *args, **kwargs):
+        if LOG.in_oracle:
+            return func(klass, *args, **kwargs)
+        if LOG.depth:
+            LOG.nested += 1
+        else:
+            LOG.top += 1
+        state = None
+        ok_pre = True
+        if pre is not None:
+            LOG.in_oracle += 1
+            try:
+                state = pre(klass, args, kwargs)
+            except (CaseTimeout, StepBudgetExceeded):
+                raise
+            except OracleGaveUp:
+                ok_pre = False
+                LOG.discard("oracle_gave_up")
+            except Exception:
+                ok_pre = False
+                _contract_error(key, "pre")
+            finally:
+                LOG.in_oracle -= 1
+        LOG.depth += 1
+        exc = None
+        result = None
+        try:
+            result = func(klass, *args, **kwargs)
+            return result
+        except (CaseTimeout, StepBudgetExceeded):
+            ok_pre = False
+            raise
+        except BaseException as e:
+            exc = e
+            raise
+        finally:
+            LOG.depth -= 1
+            if ok_pre and post is not None:
+                LOG.in_oracle += 1
+                try:
+                    LOG.count(key)
+                    post(state, klass, args, kwargs, result, exc)
+                except (CaseTimeout, StepBudgetExceeded):
+                    raise
+                except OracleGaveUp:
+                    LOG.discard("oracle_gave_up")
+                except Exception:
+                    _contract_error(key, "post")
+                finally:
+                    LOG.in_oracle -= 1
+    wrapper.__vf_orig__ = func
+    wrapper.__name__ = name
+    setattr(cls, name, classmethod(wrapper))
